@@ -9,7 +9,7 @@ import "reflect"
 
 // C06, numeric leaf of the round trip: an int64 field value normalized into a config value and read
 // back as an integer is the same number.
-//
+
 //@ func lemmaC06Int64 :: opts, ctx, x -> y, err
 //@ props C06
 //@ uses boxkinds
@@ -17,6 +17,7 @@ import "reflect"
 //@ requires rvType(rvOf(toAny(x))) != tDuration && rvType(rvOf(toAny(x))) != tRegexp
 //@ modifies *
 //@ ensures [roundtrip] err == nil && y == x
+
 func lemmaC06Int64(opts *options, ctx context, x int64) (int64, error) {
 	rv := reflect.ValueOf(x)
 	chaseValue(rv)
@@ -40,6 +41,7 @@ func lemmaC06Int64(opts *options, ctx context, x int64) (int64, error) {
 //@ requires rvType(rvOf(toAny(x))) != tDuration && rvType(rvOf(toAny(x))) != tRegexp
 //@ modifies *
 //@ ensures [roundtrip] err == nil && y == x
+
 func lemmaC06Uint64(opts *options, ctx context, x uint64) (uint64, error) {
 	rv := reflect.ValueOf(x)
 	chaseValue(rv)
@@ -60,6 +62,7 @@ func lemmaC06Uint64(opts *options, ctx context, x uint64) (uint64, error) {
 //@ requires rvType(rvOf(toAny(x))) != tDuration && rvType(rvOf(toAny(x))) != tRegexp
 //@ modifies *
 //@ ensures [roundtrip] err == nil && same(y, x)
+
 func lemmaC06Float64(opts *options, ctx context, x float64) (float64, error) {
 	rv := reflect.ValueOf(x)
 	chaseValue(rv)
